@@ -1,5 +1,5 @@
 SPECIFICATION Spec
-CONSTANT DisableOnError = TRUE
+CONSTANT DisableOnError = "always"
 INVARIANT StoreIsCurrent
 INVARIANT NothingSavedIfStartFailed
 INVARIANT StopSavesAll
